@@ -83,7 +83,11 @@ def metric_inputs(ctx, r, orth, locs):
     return sb
 
 
-def make_metric_run(orth, locs, must_fail=False):
+def make_metric_run(orth, locs, must_fail=False, capped=False):
+    """capped: the pipeline geometry2; calcMetric with cap_Bp_ylow_xpoint=True.  The cap (its own
+    contract: C06) is a stub that overwrites Bpxy.ylow with a fresh value; every post-condition
+    is stated for the arrays the region ENDS UP with (those are what the grid file stores), so
+    the cap has to act before dphidy and before every metric component is formed."""
     from hypnotoad.core.mesh import MeshRegion
 
     MLA = mk.mla_cls()
@@ -93,8 +97,29 @@ def make_metric_run(orth, locs, must_fail=False):
         sb = metric_inputs(ctx, r, orth, locs)
         r.DDX = lambda name: MLA(1, 1)  # ShiftTorsion: contract C06
         r.calc_curvature = lambda: None  # contract C07
+        caps = []
+        if capped:
+            del r.dphidy
+            hy0 = r.hy
+            del r.hy
+            r.calcHy = lambda: hy0  # contract: C05
+            r.calcBeta = lambda: None  # post-condition already installed by metric_inputs
+            r.user_options.cap_Bp_ylow_xpoint = True
+            newbp = ctx.real("Bp_ylow_capped")
+            ctx.assume(r.bpsign * newbp > 0)
+
+            def cap():
+                caps.append(1)
+                r.Bpxy.ylow[0, 0] = newbp
+
+            r.capBpYlowXpoint = cap
+            MeshRegion.geometry2(r)
         MeshRegion.calcMetric(r)
         with spec_mode():
+            if capped:
+                ctx.oblige(Sym(__import__("z3").BoolVal(caps == [1])), "cap_Bp_ylow_xpoint: the cap is applied exactly once")
+                for l in locs:
+                    ctx.oblige(mk.at(r.dphidy, l) * (mk.at(r.Bpxy, l) * mk.at(r.Rxy, l)) == mk.at(r.hy, l) * mk.at(r.Btxy, l), "dphidy = hy Bt/(Bp R) with the final (capped) Bp@%s" % l)
             for l in locs:
                 R, Bp, hy, Bt = (mk.at(getattr(r, n), l) for n in ("Rxy", "Bpxy", "hy", "Btxy"))
                 s = r.bpsign
@@ -336,6 +361,8 @@ def build(S):
     with numpy_shimmed():
         S.contract("calcMetric[orthogonal]", FN_METRIC, make_metric_run(True, mk.LOCS4, must_fail=twin), expected_exceptions=(ValueError,), replay=replay_metric(True), shape="1x1 per location, 4 locations")
         S.contract("calcMetric[nonorthogonal]", FN_METRIC, make_metric_run(False, ("centre", "ylow"), must_fail=twin), expected_exceptions=(ValueError,), replay=replay_metric(False), shape="1x1 per location, centre+ylow")
+        S.contract("geometry2;calcMetric[orthogonal, cap_Bp_ylow_xpoint]", FN_METRIC, make_metric_run(True, mk.LOCS4, capped=True), expected_exceptions=(ValueError,), shape="1x1 per location, 4 locations; cap stubbed (C06)")
+        S.contract("geometry2;calcMetric[nonorthogonal, cap_Bp_ylow_xpoint]", FN_METRIC, make_metric_run(False, ("centre", "ylow"), capped=True), expected_exceptions=(ValueError,), shape="1x1 per location, centre+ylow; cap stubbed (C06)")
         S.contract("geometry2[orthogonal]", FN_GEOM2, run_geometry2(True), shape="1x1")
         S.contract("geometry2[nonorthogonal]", FN_GEOM2, run_geometry2(False), shape="1x1")
         S.contract("calcBeta", FN_BETA, run_calcBeta, shape="nx=1, ny=1 (xlow 2x1, corners 2x2)")
